@@ -119,7 +119,7 @@ Definition filter_evaluate {V} (name : str) (tok : Z) (call : fout V) : mres V :
 Definition filter_evaluate_async {V} (name : str) (tok : Z) (call : fout V) : mres V :=
   match call with
   | FRet v => MOk v
-  | FRaise (FTypeError m) => MLErr LiquidTypeError (name ++ s_colon_sp ++ m) (Some tok)
+  | FRaise (FTypeError m) => MLErr LiquidTypeError m (Some tok)   (* same message as the sync twin since /repo f444606 *)
   | FRaise (FLiquidTypeError m _) => MLErr LiquidTypeError m (Some tok)
   | FRaise (FOtherLiquid c t) => MLErr c [] t
   | FRaise (FPy k) => MPy k
